@@ -76,6 +76,7 @@ func init() {
 		"math.Float64frombits":            ext۰math۰Float64frombits,
 		"math.Inf":                        ext۰math۰Inf,
 		"math.IsNaN":                      ext۰math۰IsNaN,
+		"math.IsInf":                      ext۰math۰IsInf,
 		"math.Ldexp":                      ext۰math۰Ldexp,
 		"math.Log":                        ext۰math۰Log,
 		"math.Min":                        ext۰math۰Min,
@@ -171,7 +172,24 @@ func ext۰math۰NaN(fr *frame, args []value) value {
 }
 
 func ext۰math۰IsNaN(fr *frame, args []value) value {
+	if f, ok := args[0].(symf); ok {
+		return E.mk(0, "(fp.isNaN "+f.name+")")
+	}
 	return math.IsNaN(args[0].(float64))
+}
+
+func ext۰math۰IsInf(fr *frame, args []value) value {
+	sign := args[1].(int)
+	if f, ok := args[0].(symf); ok {
+		switch {
+		case sign > 0:
+			return E.mk(0, "(and (fp.isInfinite "+f.name+") (fp.isPositive "+f.name+"))")
+		case sign < 0:
+			return E.mk(0, "(and (fp.isInfinite "+f.name+") (fp.isNegative "+f.name+"))")
+		}
+		return E.mk(0, "(fp.isInfinite "+f.name+")")
+	}
+	return math.IsInf(args[0].(float64), sign)
 }
 
 func ext۰math۰Inf(fr *frame, args []value) value {
